@@ -875,6 +875,17 @@ func (env *SpecEnv) call(e *Expr) (SpecVal, error) {
 			kt = env.litTerm(as[0].Lit, arrayKeySort(found[0].Sort))
 		}
 		return SpecVal{T: Select(found[0], kt)}, nil
+	case "received":
+		// received(ch): number of values received from channel ch so far (ghost)
+		as, err := evalArgs()
+		if err != nil || len(as) != 1 || as[0].T.Sort != SRef {
+			return SpecVal{}, fmt.Errorf("received(ch): %v", err)
+		}
+		cht, ok := as[0].Ty.Underlying().(*types.Chan)
+		if !ok {
+			return SpecVal{}, fmt.Errorf("received(): not a channel")
+		}
+		return SpecVal{T: Select(vc.recvCounts(env.cur, cht.Elem()), Rid(as[0].T))}, nil
 	case "fresh":
 		as, err := evalArgs()
 		if err != nil || len(as) != 1 {
